@@ -1,0 +1,154 @@
+// Verification plumbing. Only compiled with `--cfg vm_memory_verif`; never part of a normal
+// build. It contains no behaviour of its own: unset hooks are no-ops / the real operation.
+
+//! Hooks used by the external verification harness (`--cfg vm_memory_verif` only).
+
+#![allow(missing_docs)]
+#![allow(clippy::missing_safety_doc)]
+
+use std::cell::RefCell;
+use std::sync::atomic::{AtomicUsize, Ordering};
+
+// ---------------------------------------------------------------------------------------------
+// H1: trace of the primitive accesses issued by `copy_slice_impl`.
+
+/// One primitive access requested by the byte-copy helper.
+#[derive(Clone, Copy, Debug, PartialEq, Eq)]
+pub struct Access {
+    /// Width in bytes of the access (for `bulk` the total length of the bulk copy).
+    pub width: usize,
+    /// Source address.
+    pub src: usize,
+    /// Destination address.
+    pub dst: usize,
+    /// `true` when the bytes were moved by `copy_nonoverlapping` (no atomicity promise).
+    pub bulk: bool,
+}
+
+thread_local! {
+    static TRACE: RefCell<Option<Vec<Access>>> = const { RefCell::new(None) };
+}
+
+/// Start recording on this thread (clears any previous recording).
+pub fn trace_arm() {
+    TRACE.with(|t| *t.borrow_mut() = Some(Vec::new()));
+}
+
+/// Stop recording on this thread and return what was recorded.
+pub fn trace_take() -> Vec<Access> {
+    TRACE.with(|t| t.borrow_mut().take().unwrap_or_default())
+}
+
+#[inline]
+pub fn trace_access(width: usize, src: *const u8, dst: *mut u8) {
+    TRACE.with(|t| {
+        if let Some(v) = t.borrow_mut().as_mut() {
+            v.push(Access {
+                width,
+                src: src as usize,
+                dst: dst as usize,
+                bulk: false,
+            });
+        }
+    });
+}
+
+#[inline]
+pub fn trace_bulk(total: usize, src: *const u8, dst: *mut u8) {
+    TRACE.with(|t| {
+        if let Some(v) = t.borrow_mut().as_mut() {
+            v.push(Access {
+                width: total,
+                src: src as usize,
+                dst: dst as usize,
+                bulk: true,
+            });
+        }
+    });
+}
+
+// ---------------------------------------------------------------------------------------------
+// H2: atomic shim with yield points, used by `AtomicBitmap`.
+
+static YIELD_HOOK: AtomicUsize = AtomicUsize::new(0);
+
+/// Register (or clear) the function called before every atomic operation of the shim.
+pub fn set_yield_hook(f: Option<fn()>) {
+    YIELD_HOOK.store(f.map(|f| f as usize).unwrap_or(0), Ordering::SeqCst);
+}
+
+#[inline]
+pub fn yield_point() {
+    let p = YIELD_HOOK.load(Ordering::Relaxed);
+    if p != 0 {
+        // SAFETY: only values stored by `set_yield_hook` (a valid `fn()`) are non-zero.
+        let f: fn() = unsafe { std::mem::transmute::<usize, fn()>(p) };
+        f();
+    }
+}
+
+/// Drop-in replacement for `std::sync::atomic::AtomicU64` restricted to the operations the
+/// bitmap uses. Every operation is the real operation with the caller's ordering, preceded by a
+/// yield point.
+#[derive(Debug, Default)]
+pub struct AtomicU64(std::sync::atomic::AtomicU64);
+
+impl AtomicU64 {
+    pub fn new(v: u64) -> Self {
+        AtomicU64(std::sync::atomic::AtomicU64::new(v))
+    }
+    #[inline]
+    pub fn load(&self, order: Ordering) -> u64 {
+        yield_point();
+        self.0.load(order)
+    }
+    #[inline]
+    pub fn store(&self, v: u64, order: Ordering) {
+        yield_point();
+        self.0.store(v, order)
+    }
+    #[inline]
+    pub fn fetch_or(&self, v: u64, order: Ordering) -> u64 {
+        yield_point();
+        self.0.fetch_or(v, order)
+    }
+    #[inline]
+    pub fn fetch_and(&self, v: u64, order: Ordering) -> u64 {
+        yield_point();
+        self.0.fetch_and(v, order)
+    }
+}
+
+// ---------------------------------------------------------------------------------------------
+// H3: Xen ioctl emulation.
+
+#[cfg(all(feature = "xen", target_family = "unix"))]
+mod xen_ioctl {
+    use super::*;
+    use std::os::raw::{c_int, c_ulong, c_void};
+    use std::os::unix::io::AsRawFd;
+
+    /// Emulator signature: `(fd, request, argument pointer) -> return value of ioctl`.
+    pub type XenIoctlHook = unsafe fn(c_int, c_ulong, *mut c_void) -> c_int;
+
+    static XEN_IOCTL_HOOK: AtomicUsize = AtomicUsize::new(0);
+
+    /// Register (or clear) the ioctl emulator.
+    pub fn set_xen_ioctl_hook(f: Option<XenIoctlHook>) {
+        XEN_IOCTL_HOOK.store(f.map(|f| f as usize).unwrap_or(0), Ordering::SeqCst);
+    }
+
+    /// Same contract as `vmm_sys_util::ioctl::ioctl_with_ref`.
+    pub unsafe fn xen_ioctl_with_ref<F: AsRawFd, T>(fd: &F, req: c_ulong, arg: &T) -> c_int {
+        let p = XEN_IOCTL_HOOK.load(Ordering::SeqCst);
+        if p != 0 {
+            let f: XenIoctlHook = std::mem::transmute::<usize, XenIoctlHook>(p);
+            f(fd.as_raw_fd(), req, arg as *const T as *mut c_void)
+        } else {
+            vmm_sys_util::ioctl::ioctl_with_ref(fd, req, arg)
+        }
+    }
+}
+
+#[cfg(all(feature = "xen", target_family = "unix"))]
+pub use xen_ioctl::{set_xen_ioctl_hook, xen_ioctl_with_ref, XenIoctlHook};
